@@ -160,7 +160,17 @@ def check_tree(ctx, rng, s, kind, marks, d, nvec, plain=None):
         try:
             t = sqlglot.parse_one(out, read=d)
         except SqlglotError as e:
-            ctx.violation(f"output-does-not-parse:{dn}:{type(tree).__name__}:{_which(opts)}",
+            blame = _which(opts)
+            for k, v in sorted(opts.items()):
+                # a single option of the vector, if it reproduces alone
+                try:
+                    sqlglot.parse_one(tree.sql(dialect=d, **{k: v}), read=d)
+                except SqlglotError:
+                    blame = k
+                    break
+                except Exception:
+                    pass
+            ctx.violation(f"output-does-not-parse:{dn}:{type(tree).__name__}:{blame}",
                           {"sql": s, "options": opts, "out": out[:400], "error": str(e)[:200]}, case)
             continue
         ctx.count("reparses_compared")
@@ -229,6 +239,8 @@ def worker(ctx):
     with open(os.path.join(VERIF_DIR, "vf", "corpus", "identity.sql"), encoding="utf-8") as f:
         corpus = [l.rstrip("\n") for l in f if l.strip()]
     stride = spec.get("corpus_stride", 1)
+    import random as _r
+
     for li in ctx.mine(len(corpus)):
         if ctx.expired():
             break
@@ -244,6 +256,22 @@ def worker(ctx):
         vrng = _r.Random(f"C07:corpus:{li}")
         for d in ds:
             check_tree(ctx, vrng, s, "corpus", [], d, spec["vectors"], plain=s)
+    # dialect-specific statements (harvested vocabulary, gen/harvest.py), each in its own dialect; option vectors are drawn
+    # from a seed-independent stream so that the set of findings reachable here is fixed
+    from ..gen.harvest import harvested
+
+    hstride = spec.get("harvest_stride", 1)
+    k = 0
+    for di, d in enumerate(x for x in dialects if x):
+        texts, found = harvested(d)
+        for ti, s in enumerate(texts):
+            k += 1
+            if k % ctx.nshards != ctx.shard or (ti + di) % hstride:
+                continue
+            if ctx.expired():
+                break
+            ctx.count("harvested_statements")
+            check_tree(ctx, _r.Random(f"C07:harvest:{d}:{ti}"), s, "harvested", [], d, spec["vectors"], plain=s)
     if ctx.shard == 0:
         run_probes(ctx)
 
